@@ -224,7 +224,22 @@ func genC15(t *rapid.T) (c C15Case) {
 		}
 		c.Z = genRecvPrev(t, c.P, c.M)
 	case "float64", "float32":
-		switch rapid.IntRange(0, 5).Draw(t, "xk") {
+		switch rapid.IntRange(0, 6).Draw(t, "xk") {
+		case 6:
+			// integers next to powers of two (2^k + d, |d| <= 1100): the limits of the machine integer types and of
+			// the float formats' integer ranges, where a shortcut through uint64/int64 or float arithmetic wraps or
+			// rounds (2^64-1 converts to 2^64, which no uint64 holds)
+			k := rapid.SampledFrom([]int{64, 64, 63, 53, 54, 24, 25, 31, 32, 62, 65, 100, 127, 128, 1023}).Draw(t, "bk")
+			v := new(big.Int).Lsh(big.NewInt(1), uint(k))
+			v.Add(v, big.NewInt(int64(rapid.IntRange(-1100, 1100).Draw(t, "bd"))))
+			if rapid.IntRange(0, 3).Draw(t, "bneg") == 0 {
+				v.Neg(v)
+			}
+			if v.Sign() == 0 {
+				v.SetInt64(1)
+			}
+			mv := model.FromInt(v, 0)
+			c.X = h.SpecOf(mv, uint(len(mv.Digits))+uint(rapid.SampledFrom([]int{0, 0, 3, 19}).Draw(t, "bp")), h.GenMode(t, "xm"))
 		case 0, 1:
 			// exactly halfway between two adjacent floats, and halfway +- a tiny amount
 			var v model.Val
